@@ -109,4 +109,18 @@ CycleG(n) == [n |-> n, edges |-> [i \in 1 .. n |-> <<i - 1, i % n>>]]
 StarG(n)  == [n |-> n, edges |-> [i \in 1 .. n - 1 |-> <<0, i>>]]
 CompleteG(n) == [n |-> n, edges |-> SetToSeqOrd(Pairs(n))]
 
+(* C10: crossable loop / path on a frame.  Segments are the lattice edges (in Lattice order);  *)
+(* a segment is horizontal iff its endpoints are consecutive point numbers.                     *)
+Horizontal(g, e) == g.edges[e][2] = g.edges[e][1] + 1
+Joined(g, A, s, t) ==
+    /\ s # t
+    /\ \E p \in Ends(g, s) \cap Ends(g, t) :
+          \/ Deg(g, A, p) = 2
+          \/ (Deg(g, A, p) = 4 /\ Horizontal(g, s) = Horizontal(g, t))
+RECURSIVE Strand(_, _, _)
+Strand(g, A, S) == LET N == {t \in A \ S : \E s \in S : Joined(g, A, s, t)}
+                   IN  IF N = {} THEN S ELSE Strand(g, A, S \cup N)
+Crossable(g, A, cyc) ==
+    A = {} \/ ( /\ \A p \in V(g) : Deg(g, A, p) \in (IF cyc THEN {0, 2, 4} ELSE {0, 1, 2, 4})
+                /\ Strand(g, A, {CHOOSE s \in A : TRUE}) = A )
 =============================================================================
